@@ -486,3 +486,37 @@ def run(ck):
     ck.ob('C17.decode', 'C17.decode/sequences-keep-wire-order', not shuf, dec.loc(shuf[0]) if shuf else dec.loc(),
           'decode_manifest only appends to the manifest\'s lists (shards, metadata, hints): it never sorts, reverses, de-duplicates, erases from or resizes them'
           + ('' if not shuf else ' — %s' % (dec.nodes[shuf[0]].get('callee') or '').split('<')[0]))
+
+    # ---- encode_manifest serialises the manifest's own lists, whole and in place: every loop is a range-for directly over a member of the
+    # `manifest` parameter (never over a filtered / de-duplicated / sorted copy), each of the four list members has a loop that appends to the
+    # output, and no loop skips or stops early (an element left out is a manifest that does not round-trip, and a shortened count slips past
+    # the 255 limit) ----
+    from sa.paths import loops as _loops17
+    lp17 = _loops17(enc)
+    ck.floor('C17.encode', 'loops in encode_manifest', len(lp17), 7)
+    mparam = enc.params[0]['d']
+    bad17 = None
+    written = set()
+    for l_ in lp17:
+        nd_ = enc.nodes[l_]
+        if nd_['k'] != 'CXXForRangeStmt':
+            bad17 = bad17 or (l_, 'a %s (not a range-for over a manifest list)' % nd_['k'])
+            continue
+        r_ = enc.strip(nd_['range'])
+        rn = enc.nodes[r_]
+        base_ok = rn['k'] == 'MemberExpr' and (rn.get('m') or '').startswith(NS + 'Manifest::') and \
+            enc.nodes[enc.strip(enc.kids(r_)[0])]['k'] == 'DeclRefExpr' and enc.nodes[enc.strip(enc.kids(r_)[0])].get('d') == mparam
+        if not base_ok:
+            bad17 = bad17 or (l_, 'ranges over something other than a list member of the manifest parameter')
+            continue
+        skip_ = [i for i in enc.walk(nd_['body']) if enc.nodes[i]['k'] in ('ContinueStmt', 'BreakStmt', 'ReturnStmt', 'GotoStmt')]
+        if skip_:
+            bad17 = bad17 or (skip_[0], 'leaves the iteration early')
+        if any((enc.nodes[i].get('callee') or '').endswith(('::push_back', '::insert')) for i in enc.walk(nd_['body'])):
+            written.add((rn.get('m') or '').split('::')[-1])
+    ck.ob('C17.encode', 'C17.encode/lists-serialised-whole-in-place', bad17 is None, enc.loc(bad17[0]) if bad17 else enc.loc(),
+          'every loop of encode_manifest is a range-for directly over a list member of the manifest parameter, with no continue/break/return'
+          + ('' if not bad17 else ' — ' + bad17[1]))
+    need17 = {'shards', 'metadata', 'discovery_hints', 'fallback_hints'}
+    ck.ob('C17.encode', 'C17.encode/every-list-has-a-writing-loop', need17 <= written, enc.loc(),
+          'shards, metadata, discovery_hints and fallback_hints are each appended to the output by a loop over the member itself (found: %s)' % sorted(written))
